@@ -117,6 +117,7 @@ PAIR_BASIS = ['a', 'b', '~a', 'a & b', 'b & a', 'a | b', '~(~a & ~b)', 'a & ~b |
               '~(~a | ~b | ~c | ~d)', 'a & b | c & d', '(a | c) & (a | d) & (b | c) & (b | d)', 'a | ~a', '1', 'b & ~b', '0',
               'a & (a | d)', '(a & ~d | ~a & d) & ~c | ~(a & ~d | ~a & d) & c', '~(a & ~c | ~a & c) & d | (a & ~c | ~a & c) & ~d',
               'c', 'c & (d | ~d)', 'not (a and not b or not a and b)', 'a & b | ~a & ~b', 'd | (a and b and c)']
+PAIR_BASIS = [B.rn(t) for t in PAIR_BASIS]
 
 
 def pairs_history(rng, O, basis):
